@@ -1729,6 +1729,16 @@ def _should_create_value_info_for_value(value: _protocols.ValueProtocol) -> bool
     if not value.name:
         logger.debug("Did not serialize '%s' because its name is empty", value)
         return False
+    if value.type is None and not value.metadata_props and not value.doc_string:
+        # A shape can only be written into a type. Without a type the entry would
+        # carry nothing but the name, and would disappear in the next round trip
+        logger.warning(
+            "The type of value '%s' with shape %s is not known. Please set type for the value. "
+            "Skipping serialization of its value info",
+            value.name,
+            value.shape,
+        )
+        return False
     return True
 
 
